@@ -214,6 +214,14 @@ func main() {
 		{"payload-array", "envelope", func(s *script) { s.mutate = func([]byte) []byte { return []byte("[]") } }, true},
 		{"payload-not-json", "envelope", func(s *script) { s.mutate = func([]byte) []byte { return []byte("hello") } }, true},
 		{"payload-type", "envelope", func(s *script) { s.cty = "application/json" }, true},
+		// near misses of the Notary payload type: a verifier compares the type exactly, so each of these is another type
+		{"payload-type-with-parameter", "envelope", func(s *script) { s.cty = lib.PayloadType + "; charset=utf-8" }, true},
+		{"payload-type-with-version-parameter", "envelope", func(s *script) { s.cty = lib.PayloadType + ";version=2" }, true},
+		{"payload-type-upper-case-suffix", "envelope", func(s *script) { s.cty = strings.Replace(lib.PayloadType, "+json", "+JSON", 1) }, true},
+		{"payload-type-capitalised", "envelope", func(s *script) { s.cty = "Application/Vnd.CNCF.Notary.Payload.V1+json" }, true},
+		{"payload-type-trailing-blank", "envelope", func(s *script) { s.cty = lib.PayloadType + " " }, true},
+		{"payload-type-v2", "envelope", func(s *script) { s.cty = strings.Replace(lib.PayloadType, "v1", "v2", 1) }, true},
+		{"payload-type-prefix-only", "envelope", func(s *script) { s.cty = strings.TrimSuffix(lib.PayloadType, "+json") }, true},
 		{"echo-wrong-format", "envelope", func(s *script) { s.echoFmt = "other" }, true},
 		{"real-wrong-format", "envelope", func(s *script) { s.realFmt = "other" }, true},
 		{"corrupt-envelope", "envelope", func(s *script) { s.corrupt = true }, true},
